@@ -1081,7 +1081,7 @@ func agentRetry(t *testing.T, tp *simrt.Tape, cfg simrt.Config, sc *agentScenari
 		if depsOK {
 			wantN, wantL := ownOutcome(spec2)
 			if len(rs) == 0 {
-				chk.viol("unfinished-step-not-rerun", recLabel[name], "step %s was recorded %s (or is downstream of an unfinished step) but the retry did not execute it; its state in the retry's record: %s", name, recLabel[name], labelOf(fn))
+				chk.viol("unfinished-step-not-rerun", recLabel[name], "step %s was recorded %s (or is downstream of an unfinished step) but the retry did not execute it; its state in the retry's record: %s; recorded vector %v; lines: %s", name, recLabel[name], labelOf(fn), recLabel, lineVectors(recordedBytes))
 				continue
 			}
 			if len(rs) != wantN {
@@ -1160,6 +1160,22 @@ func expectedAttempts(d *DagSpec) map[string]int {
 		return map[string]int{}
 	}
 	return att
+}
+
+func lineVectors(file string) string {
+	var out []string
+	for _, ln := range strings.Split(file, "\n") {
+		st, err := model.StatusFromJSON(ln)
+		if err != nil {
+			continue
+		}
+		v := st.Status.String() + ":"
+		for _, n := range st.Nodes {
+			v += n.Step.Name + "=" + n.Status.String() + ","
+		}
+		out = append(out, v)
+	}
+	return strings.Join(out, " | ")
 }
 
 func labelOf(n *model.Node) string {
